@@ -14,7 +14,9 @@ CORR_ONLY = ["exactness to degree 2n-1 'for all n' is evaluated per n on the imp
              "nodes strictly increasing and strictly inside, weights positive and summing to b-a: evaluated per order on the "
              "implementation's output and, through class B, against the model's 200-bit Newton iteration",
              "convergence of the Newton iteration from the coded start value (termination of while(true))"]
-ASSUMPTIONS = ["the model's Newton iteration runs in rounded rational arithmetic (2^-200) with a Taylor cosine and a 100-digit "
+ASSUMPTIONS = ["'exact to rounding' is evaluated as: the Newton stopping tolerance of the code (|z-z1| <= 1e-14, pp taken at z1) "
+               "propagated through the weight formula (relative 2e-14 * 2|t|/(1-t^2) per weight, x1.5 margin) plus K*2^-53 rounding terms",
+               "the model's Newton iteration runs in rounded rational arithmetic (2^-200) with a Taylor cosine and a 100-digit "
                "rational pi: validated by the driver self-test (cos(pi/3), cos(pi/4), cos(pi/6), cos(2pi/3)), not verified",
                "std::cos of libm is accurate enough for Newton to converge to root i from the coded start value"]
 TRUSTED = ["props/c12.py oracle: 160-bit fixed-point Legendre recurrence and exact Fraction moments in Python",
@@ -27,7 +29,7 @@ ONE = 1 << P
 # therefore carries a relative error up to NEWTON * 2|t|/(1-t^2) that is inherent in the algorithm as coded
 # (P''/P' = 2t/(1-t^2) at a root).  "To rounding" is evaluated with this stopping tolerance propagated, plus
 # K*eps rounding terms calibrated on the unchanged tree (seeds 1..8 quick, 1..2 thorough; x16 safety included).
-NEWTON = Fraction(2, 10 ** 14)
+NEWTON = Fraction(3, 10 ** 14)   # 2*eps_Newton*(1 + 50% margin): observed 0.99 * 2e-14 * cond at knife-edge stops
 K_NODE = 64        # |dx|  <= K_NODE * eps * (|a|+|b|)
 K_WEIGHT = 512     # |dw|  <= |w| * (NEWTON*cond(t) + K_WEIGHT * eps * (1 + n/64))
 K_SUM = 64         # |sum w - (b-a)| <= NEWTON * sum |w| cond + K_SUM * eps * |b-a| * (1 + n/64)
